@@ -137,7 +137,8 @@ func (h *Harness) check(in *inst, x *sched.Exec) (string, []Finding) {
 				add("C12", clLate, wsite, "after removal", "%s: writer.%s(%s) at t=%d although the subscription's completed channel was already closed (causes %v)", name, c.kind, clipS(c.payload, 60), c.at, s.causes)
 			case c.afterTerminal != "" && c.kind == "Heartbeat":
 				hbAfterTerminal++ // between the source's Complete/Error and its Done: not judged (see report)
-			case c.afterTerminal != "" && (c.kind == "Write" || c.kind == "Flush"):
+			case c.afterTerminal != "" && c.kind == "Flush" && !foreignEvent(s, evByTag[tagOfPayload(c.payload)]):
+				// (a foreign event after the terminal message is reported once, by the may clause)
 				add("C12", clLate, wsite, "after writer."+c.afterTerminal, "%s: writer.%s(%s) at t=%d although writer.%s had already been written", name, c.kind, clipS(c.payload, 60), c.at, c.afterTerminal)
 			}
 			switch c.kind {
@@ -397,6 +398,11 @@ func (h *Harness) check(in *inst, x *sched.Exec) (string, []Finding) {
 	h.lastHBAfterTerminal = hbAfterTerminal
 	h.lastOverlapTeardown = overlapTeardown
 	return outcome, dedupe(fs)
+}
+
+// foreignEvent: e was emitted by an upstream start the subscriber is not attached to.
+func foreignEvent(s *subState, e *eventRec) bool {
+	return e != nil && e.start != nil && s.trig != nil && e.start.trig != s.trig
 }
 
 func dedupe(fs []Finding) []Finding {
